@@ -75,11 +75,10 @@ impl AsyncConnection {
                     let _ = self.connection.sender.send(resp.into());
                 }
                 Ok(Some(_)) => {}
-                Ok(None) => {
-                    return Err(Box::new(ExitError(
-                        "channel closed while waiting for exit notification".to_owned(),
-                    )));
-                }
+                // The transport stops reading after `exit` (it may already have been read and
+                // queued while the server was initializing) or at end of input: either way the
+                // client is done, so finish the shutdown normally and let running requests answer.
+                Ok(None) => break,
                 Err(_) => {
                     return Err(Box::new(ExitError(
                         "timed out waiting for exit notification".to_owned(),
